@@ -163,7 +163,7 @@ def mT2 : Mod := ⟨['T', '2'], by decide⟩
 def pTarget : Par := ['t', 'a', 'r', 'g', 'e', 't']
 def pTargetMax : Par := pTarget ++ ['_', 'm', 'a', 'x']
 
-def exCfg : Cfg := ⟨[mT, mT2], fun _ => [pTarget, pTargetMax], [1], fun _ => false⟩
+def exCfg : Cfg := ⟨[mT, mT2], fun _ => [pTarget, pTargetMax], [1], fun _ => false, fun _ _ => false⟩
 def exInit : State :=
   init (fun c => if c = 1 then [.activate (.par mT pTarget), .deactivate (.par mT pTarget)] else [])
        (fun k => if k = 1 then [(mT, pTarget, .val 7), (mT, pTarget, .val 5)] else []) (fun _ _ => .val 0)
@@ -223,7 +223,7 @@ example : ((run exCfg exInit3 ((List.replicate 26 (⟨.h 1, 0⟩ : Act)) ++
 
 /-- remote logging broken: `*IDN?` is answered with an error report, the activation is gone all the same and the update
 emitted afterwards is not delivered -/
-def exCfgBroken : Cfg := ⟨[mT], fun _ => [pTarget], [1], fun _ => true⟩
+def exCfgBroken : Cfg := ⟨[mT], fun _ => [pTarget], [1], fun _ => true, fun _ _ => false⟩
 def exInit4 : State :=
   init (fun c => if c = 1 then [.activate .all, .ident] else [])
        (fun k => if k = 1 then [(mT, pTarget, .val 3)] else []) (fun _ _ => .val 0)
@@ -236,7 +236,7 @@ example : ((run exCfgBroken exInit4 ((List.replicate 16 (⟨.h 1, 0⟩ : Act)) +
 /-- two connections: 1 activates `T:target`, 2 activates the whole node, an update of `T:target` goes to both, 2 deactivates,
 the next update goes to 1 only — and between the two the broadcast has left no entry for 2 under `T:target`
 (what the seeded in-place `listeners |= …` does) -/
-def exCfg2 : Cfg := ⟨[mT], fun _ => [pTarget], [1, 2], fun _ => false⟩
+def exCfg2 : Cfg := ⟨[mT], fun _ => [pTarget], [1, 2], fun _ => false, fun _ _ => false⟩
 def exInit5 : State :=
   init (fun c => if c = 1 then [.activate (.par mT pTarget)] else if c = 2 then [.activate .all, .deactivate .all] else [])
        (fun k => if k = 1 then [(mT, pTarget, .val 1), (mT, pTarget, .val 5)] else []) (fun _ _ => .val 0)
